@@ -642,6 +642,14 @@ func (v *Verifier) generate(bc *BoundContract) *FuncResult {
 		}
 		v.assumeGlobalAxioms(c, st, tTrue)
 		v.initFrame(c, bc, env)
+		c.protect = nil
+		if !bc.C.Trusted {
+			for _, cl := range bc.C.Clauses {
+				if cl.Kind == "protects" {
+					c.protect = append(c.protect, cl)
+				}
+			}
+		}
 		for _, cl := range bc.C.Clauses {
 			if cl.Kind == "requires" {
 				t, err := env.evalBool(cl.Expr)
@@ -698,6 +706,7 @@ func (v *Verifier) generate(bc *BoundContract) *FuncResult {
 			}
 			v.frameObligation(c, f, bc, s, g, site, env)
 			v.heapFrameObligation(c, f, bc, s, g, site, env, ret)
+		v.protectObligations(c, f, s, g, site, ret)
 			v.readonlyObligation(c, f, bc, s, g, site, ret)
 		}
 		c.loopWNew = false
@@ -820,6 +829,80 @@ func (v *Verifier) heapFrameObligation(c *Ctx, fr *Frame, bc *BoundContract, s *
 		return
 	}
 	c.addObl(fr, &Obligation{Kind: "frame-heap", Site: site, Clause: "objects that existed at entry and are not named in modifies/sets are unchanged (written: " + strings.Join(names, ", ") + ")", Guard: g, Goal: goal, Where: fr.posShort(ret.Pos())})
+}
+
+// protectObligations: "protects [label] G" - no object that existed at entry and is marked in the ghost set G (map[V]bool)
+// has a field, abstract field, map content or pointer cell at the return that differs from its entry value, whatever the
+// modifies clauses allow. Callers rely on it when they apply the contract (see applyProtects).
+func (v *Verifier) protectObligations(c *Ctx, fr *Frame, s *State, g *Term, site string, ret *ssa.Return) {
+	for _, cl := range c.protect {
+		ks := make([]string, 0, len(s.h))
+		for k := range s.h {
+			ks = append(ks, k)
+		}
+		goal, names, err := c.protectCond(cl, s, c.entry, c.keys["$clk"].init, ks)
+		if err != nil {
+			c.unsup = append(c.unsup, fmt.Sprintf("%s: protects: %v", cl.Pos, err))
+			continue
+		}
+		if goal == nil {
+			continue
+		}
+		c.addObl(fr, &Obligation{Label: cl.Label, Pending: cl.Pending, Kind: "protects", Site: site, Pos: cl.Pos,
+			Clause: cl.Text + "  (written: " + strings.Join(names, ", ") + ")", Guard: g, Goal: goal, Where: fr.posShort(ret.Pos())})
+	}
+}
+
+// protectCond: for the given heap keys, every object born before clk0 and marked in the protected ghost set (as of state
+// from) has in s the value it has in from.
+func (c *Ctx) protectCond(cl *Clause, s, from *State, clk0 *Term, keys []string) (*Term, []string, error) {
+	id, ok := cl.Expr.(*EIdent)
+	if !ok {
+		return nil, nil, fmt.Errorf("protects needs the name of a ghost set")
+	}
+	gv, ok := c.V.ghosts[id.Name]
+	if !ok {
+		return nil, nil, fmt.Errorf("protects: unknown ghost %s", id.Name)
+	}
+	gs, err := ghostSort(gv.Type)
+	if err != nil {
+		return nil, nil, err
+	}
+	if ix, el, ok := arrParts(gs); !ok || ix != SV || el != SBool {
+		return nil, nil, fmt.Errorf("protects: ghost %s is not a map[V]bool", id.Name)
+	}
+	c.key("G:"+id.Name, gs)
+	set := c.get(from, "G:"+id.Name, gs)
+	ks := append([]string{}, keys...)
+	sort.Strings(ks)
+	var parts []*Term
+	var names []string
+	for _, k := range ks {
+		if !(strings.HasPrefix(k, "F:") || strings.HasPrefix(k, "P:") || strings.HasPrefix(k, "A:") || strings.HasPrefix(k, "MD:") || strings.HasPrefix(k, "MV:") || strings.HasPrefix(k, "AF:")) {
+			continue
+		}
+		hi := c.keys[k]
+		cur, ok := s.h[k]
+		if hi == nil || !ok {
+			continue
+		}
+		was, ok := from.h[k]
+		if !ok {
+			was = hi.init
+		}
+		if cur.S == was.S {
+			continue
+		}
+		if ix, _, ok := arrParts(hi.sort); !ok || ix != SV {
+			continue
+		}
+		parts = append(parts, mk(SBool, "(forall ((r V)) (! (=> (and (< (birth r) %s) (select %s r)) (= (select %s r) (select %s r))) :pattern ((select %s r))))", clk0.S, set.S, cur.S, was.S, cur.S))
+		names = append(names, k)
+	}
+	if len(parts) == 0 {
+		return nil, nil, nil
+	}
+	return tAnd(parts...), names, nil
 }
 
 // initFrame evaluates the modifies/sets targets of the function under verification in its entry state.
